@@ -37,6 +37,16 @@ CHECKS.update({
          "the MappingManager is an injective table stub; the SQL mapping manager (paging by 100, insert-on-conflict) is not covered by this check", "4 C16"),
 })
 
+HANDLER_NOTE = "handlers run with recording storage stubs, a capturing herodot writer, JSON decoding replaced by 'arbitrary value of the static type or an error', config getters overridden; HTTP routing/middleware and wire formats are outside"
+CHECKS.update({
+ "C08": ("the real REST and gRPC check handlers and the real Engine.BatchCheck are executed with the engine core replaced by an uninterpreted function (fresh symbolic membership/error per distinct mapped tuple and depth): every transport's decision equals the engine's, status mirroring is 200<=>allowed / 403<=>denied, unknown namespaces are never allowed, batch results are per-slot and in order",
+         HANDLER_NOTE + "; counterexamples cannot be replayed natively because the engine core is uninterpreted here", "4 C08"),
+ "C13": ("every exported gRPC handler of the check/read/write/expand services and the bodies of the REST handlers are executed on arbitrary inhabitants of their request types (nil-ness of every optional pointer, null array elements, fully symbolic numbers, opaque strings): no panic in any goroutine, malformed requests are not 5xx/Internal, rejected writes do not write",
+         HANDLER_NOTE, "4 C13"),
+ "C17": ("the read handlers (check, batch check, list, expand) on arbitrary requests never call a writing method of relationtuple.Manager / MappingManager nor obtain the writing Mapper; RegistryDefault hands out a read-only ReadOnlyMapper",
+         HANDLER_NOTE + "; decided at the Manager/MappingManager interface, the SQL below it is not part of this check", "4 C17"),
+})
+
 NOT_APPLICABLE = {}
 
 def main():
